@@ -820,7 +820,7 @@ func (w *World) ConstNamed(pkg, name string) VM {
 	obj, _ := w.Obj(pkg, name).(*types.Const)
 	return func(v ssa.Value) bool {
 		c, ok := v.(*ssa.Const)
-		if !ok || obj == nil || c.Value == nil {
+		if !ok || obj == nil || c.Value == nil || c.Value.Kind() != obj.Val().Kind() {
 			return false
 		}
 		return constant.Compare(c.Value, token.EQL, obj.Val())
